@@ -26,13 +26,14 @@ H_BF2 = "struct Reg { unsigned mode:3; unsigned count:10; unsigned addr:16; };\n
 H_STATIC = ("static inline int sq(int x) { return x * x; }\nstatic int tw(int x) { return 2 * x; }\n#include \"c11_dep.h\"\n"
             "#define FALLBACK (M_BASE + 1)\n#define M_BASE 41\n")
 H_ABI = "void get_a(void); void get_b(int); void set_a(int); void other(void); int getset(void);\n"
+H_REFS = "struct R { int &r; const double &d; char c; R(int &a, const double &b); };\nstruct HR { R *p; R &q; int z; };\nint &pick(int &a, int &b);\n"
 H_ENUM = "enum E { A, B = 5 }; typedef enum E E_t; struct WE { enum E e; int arr[40]; float f; };\nunion UN { int i; float f; };\n"
 
 
 def alphabet(wd):
     os.makedirs(wd, exist_ok=True)
     files = {"c11_c.h": H_C, "c11_tpl.hpp": H_TPL, "c11_bf1.h": H_BF1, "c11_bf2.h": H_BF2, "c11_static.h": H_STATIC,
-             "c11_dep.h": "#pragma once\ntypedef int dep_t;\n", "c11_abi.h": H_ABI, "c11_enum.h": H_ENUM}
+             "c11_dep.h": "#pragma once\ntypedef int dep_t;\n", "c11_abi.h": H_ABI, "c11_enum.h": H_ENUM, "c11_refs.hpp": H_REFS}
     for n, t in files.items():
         with open(os.path.join(wd, n), "w") as f:
             f.write(t)
@@ -52,6 +53,8 @@ def alphabet(wd):
         {"name": "enum-derives", "args": [p("c11_enum.h"), "--with-derive-default", "--with-derive-hash", "--with-derive-eq",
                                           "--default-enum-style", "rust", "--impl-debug"]},
     ]
+    J.append({"name": "refs-x86_64", "args": [p("c11_refs.hpp"), "--", "-std=c++14"]})
+    J.append({"name": "refs-i686", "args": [p("c11_refs.hpp"), "--", "-std=c++14", "--target=i686-unknown-linux-gnu"]})
     for j in J:
         j["callbacks"] = {"log": True}
     return J
@@ -136,6 +139,37 @@ def run(ck, only=None):
         ck.sample({"history": [names[i] for i in hist[min(len(hist) - 1, 20)]]})
         ck.extra["histories"] = len(hist)
 
+    # (a') the same histories (length <= 2) in an environment where the variables bindgen consults are set
+    if not only or only.get("kind") == "history-env":
+        env = dict(common.ENV)
+        env["BINDGEN_EXTRA_CLANG_ARGS"] = "-DC11_EXTRA=1"
+        env["TARGET"] = "x86_64-unknown-linux-gnu"
+        refj = [dict(id=f"eref|{j['name']}", mode="history", jobs=[slot(j, "eref")], fresh=True) for j in J]
+        eres = common.run_jobs(refj, wd, timeout=60, env=env)
+        eref = {j["name"]: observe(eres[f"eref|{j['name']}"]["outs"][0], "eref") for j in J}
+        hist2 = list(itertools.product(range(len(J)), repeat=2))
+        if only:
+            hist2 = [tuple(only["seq"])]
+        jobs = [{"id": "ehist|" + ",".join(map(str, h)), "mode": "history", "jobs": [slot(J[i], f"e{k}x{hn}") for k, i in enumerate(h)], "fresh": True, "timeout": 120}
+                for hn, h in enumerate(hist2)]
+        eres = common.run_jobs(jobs, wd, timeout=120, env=env)
+        for hn, h in enumerate(hist2):
+            r = eres["ehist|" + ",".join(map(str, h))]
+            ck.count()
+            states += 1
+            transitions += len(h)
+            ck.nontriv(("eh", h))
+            if r["status"] != "ok":
+                ck.violation(f"history-env seq={[names[i] for i in h]} {r['status']}", {"kind": "history-env", "seq": list(h), "why": str(r)[:200]})
+                continue
+            for k, i in enumerate(h):
+                if observe(r["outs"][k], f"e{k}x{hn}") != eref[names[i]]:
+                    ck.violation(f"history-env seq={[names[i] for i in h]} position={k}", {"kind": "history-env", "seq": list(h),
+                                 "why": f"with BINDGEN_EXTRA_CLANG_ARGS and TARGET set, generation #{k} ({names[i]}) differs from its fresh-process output: "
+                                        + first_diff(observe(r["outs"][k], f"e{k}x{hn}"), eref[names[i]])})
+                    break
+        ck.extra["histories_with_env"] = len(hist2)
+
     # (c) gate-level interleavings
     if not only or only.get("kind") == "schedule":
         GATES_ALL = ["libclang_loaded", "pre_parse", "parsed", "gen_enter", "allowlisted", "analysed", "codegen_done", "pre_format"]
@@ -146,9 +180,9 @@ def run(ck, only=None):
             plans += [(p, g2) for p in pairs]
             plans += [(t, ["parsed", "analysed"]) for t in [(0, 1, 2), (3, 4, 4), (2, 0, 2), (5, 5, 6), (1, 7, 1), (6, 6, 6)]]  # 3 threads x 3 segments: 1680
         else:
-            pairs = [(0, 2), (3, 4), (2, 2), (1, 1), (5, 5), (6, 6), (1, 0), (4, 7)]
+            pairs = [(0, 2), (3, 4), (2, 2), (1, 1), (5, 5), (6, 6), (1, 0), (4, 7), (8, 9), (9, 8)]
             if ck.seed:
-                pairs = list(dict.fromkeys(pairs[ck.seed % 2::2] + [(0, 2), (3, 4)]))
+                pairs = list(dict.fromkeys(pairs[ck.seed % 2::2] + [(0, 2), (3, 4), (8, 9)]))
             g2 = ["libclang_loaded", "parsed", "analysed"]  # 4 segments each: C(8,4) = 70
             plans += [(p, g2) for p in pairs]
             plans += [((0, 2, 0), ["analysed"])]  # 3 threads x 2 segments: 90
@@ -203,7 +237,7 @@ def run(ck, only=None):
     ck.extra["states"] = states
     ck.extra["transitions"] = transitions
     ck.extra["traces_validated_against_impl"] = states
-    if only and only.get("kind") not in (None, "repeat", "process"):
+    if only and only.get("kind") not in (None, "repeat", "process", "history-env"):
         return
     # (b) repeats on repository headers
     if not only or only.get("kind") == "repeat":
